@@ -143,5 +143,54 @@ def check(case, rec):
     rec.nontrivial(partial and mixed)
 
 
-PARTS = [Part('amp-pipeline', check, strategy=strategy, budget={'quick': 1600, 'thorough': 30000},
+def enum_dtypes(tier, shard, nshards):
+    """cycle tables whose sample columns are stored compactly (pd.to_numeric(downcast=...), int32 from other tools), with a cycle
+    that ends exactly on the largest value the dtype holds"""
+    idx = 0
+    for dt, top in (('int16', 32767), ('uint16', 65535), ('int32', 70000), ('int64', 40000), ('float64', 33000)):
+        for center in ('peak', 'trough'):
+            for end in (top, top - 1, top - 37):
+                idx += 1
+                if idx % nshards == shard:
+                    yield {'dtype': dt, 'last_end': end, 'center': center, 'period': [100, 64][idx % 2]}
+
+
+def check_dtypes(case, rec):
+    import pandas as pd
+    import warnings
+    from bycycle.features.burst import compute_burst_fraction
+    fs, fr, period, end = 1000, (1000 / case['period'] * 0.8, 1000 / case['period'] * 1.3), case['period'], case['last_end']
+    n = end + 1 + 3 * period
+    t = np.arange(n)
+    x = np.sin(2 * np.pi * t / period) * (1 + 0.9 * np.sin(2 * np.pi * t / (period * 23.7))) + 0.05 * np.cos(t * 1.7)
+    sides = np.arange(end % period, end + 1, period)
+    nm = ref.names(case['center'])
+    df64 = pd.DataFrame({nm['last']: sides[:-1], nm['center']: sides[:-1] + period // 2, nm['next']: sides[1:]}).astype('int64')
+    if int(df64[nm['next']].values[-1]) != end:
+        raise RuntimeError('construction: last cycle does not end on %d' % end)
+    try:
+        with warnings.catch_warnings():
+            warnings.simplefilter('ignore')
+            mask = ref.ref_burst_mask(x, fs, fr, (1, 2), 3, None, None)
+    except Exception as exc:  # noqa
+        raise Discard('trusted detector raises %s' % type(exc).__name__)
+    want = np.array([np.mean(mask[a:b + 1]) for a, b in zip(df64[nm['last']].values, df64[nm['next']].values)])
+    df = df64.astype(case['dtype'])
+    keep = df.copy(deep=True)
+    with warnings.catch_warnings():
+        warnings.simplefilter('ignore')
+        got = np.asarray(guarded(compute_burst_fraction, df, x.copy(), fs, fr), dtype=float)
+    if got.shape != want.shape or not np.array_equal(got, want):
+        bad = np.flatnonzero(~((got == want) | (np.isnan(got) & np.isnan(want)))) if got.shape == want.shape else []
+        raise Violation('burst_fraction[%s sample columns]' % case['dtype'], 'rows %s of %d differ from the fraction of detector samples in [last, next] (last cycle ends on sample %d)' % (
+            list(bad[:5]), len(want), end))
+    ok, why = ref.frames_equal(df, keep)
+    if not ok:
+        raise Violation('burst_fraction:table-modified', why)
+    rec.label('dtype:' + case['dtype'], 'ends-on-dtype-max' if end in (32767, 65535) else 'below-dtype-max')
+    rec.nontrivial(case['dtype'] != 'int64')
+
+
+PARTS = [Part('sample-dtypes', check_dtypes, enum=enum_dtypes, shards={'quick': 6, 'thorough': 6}, exhaustive=True, time_cap={'quick': 120, 'thorough': 300}),
+         Part('amp-pipeline', check, strategy=strategy, budget={'quick': 1600, 'thorough': 30000},
               shards={'quick': 16, 'thorough': 16})]
